@@ -161,7 +161,7 @@ pub open spec fn written_entries(game: Game, c: Option<Compression>, es: Seq<Tar
 //@fn src/io/peppi/ser.rs | - | write | ret=res | rules=R6 | sigsub=/Result<(), Box<dyn Error>>/std::result::Result<(), BoxError>/ | sub=/Box::new(batch) as Box<dyn Array>/batch.boxed()/ | sub=/gecko_codes.actual_size.to_le_bytes().to_vec()/u32_to_le_vec(gecko_codes.actual_size)/
 	ensures
 		!slippi::le_max(game.start.slippi.version) ==> res is Err /*[C09.slpp_writer_refuses_newer_versions]*/,
-//@before slippi::assert_max_version
+//@before ^
 	let ghost game0 = game;
 //@before if let Some(end)
 	proof { assert(tar.entries@ =~= head_entries(game0)); }
